@@ -7,9 +7,10 @@
    behaviours), their instances for the real stages, the FixPeriodPlanner arithmetic, the refutation
    (unbounded number of points => allocation failure in an unrecovered goroutine).
 3. Correspondence: harness/cmd/readfuzz drives the REAL reader router in child processes over a scripted
-   database/sql driver; the modelled requests (Loki range/instant in four pipeline shapes, Tempo trace by id)
-   are evaluated inside Coq: model_outcome = observed class (mismatches), and the property's oracle on the
-   observed class (spec_violations). Mutated / random query bytes and every other read endpoint are checked
+   database/sql driver; the modelled requests (stream 1: Loki range/instant in four pipeline shapes, Tempo trace by id;
+   stream 2: labels, label values, series, Tempo tags / tag values / search / TraceQL -- model/ReadFwd.v, outcome class
+   AND number of SQL statements) are evaluated inside Coq: model = observed (mismatches), and the property's oracle
+   on the observed class (spec_violations). Mutated / random query bytes and the remaining read endpoints are checked
    for response + liveness + goroutine census only (a TEST, labelled so in the evidence).
 """
 import hashlib
@@ -270,7 +271,8 @@ def run(ck):
     ck.trusted += [
         "C12: the PromQL engine, the participle parsers, fastjson/protobuf decoders and database/sql are exercised by the harness, not modelled",
         "C12: the LTS abstracts label maps, message text and float values; one LTS message per rows.Next(); real-time bounds are not proved (termination = no infinite schedule)",
-        "C12: the database answers inside the WHERE window of the statement (rows outside it are not generated); allocation of more than 2^27 float64 is modelled as a failure",
+        "C12: allocation of more than 2^27 float64 is modelled as a failure (unreachable for accepted requests since the caps of 5180be1: theorem accepted_requests_have_safe_context); int64 wrap-around beyond 2^62 ns is not modelled",
+        "C12: a Scan error in TempoService.Tags / Values / Search returns without rows.Close(): the result set is released by database/sql (Rows.awaitDone) when net/http cancels the request context -- modelled as the drainer of that cell",
         "C12: goroutine census (runtime.Stack) and the child-process crash/hang detection of harness/cmd/readfuzz",
         "C12: go/ast translator translate/goinv_reader (recover status, operation census by name-based call following inside a package)",
     ]
@@ -423,7 +425,8 @@ def run(ck):
     ck.coverage["distinct_nontrivial"] += len(distinct)
     ck.coverage["rule"] += ("requests served by the real reader router in child processes; modelled: Loki query_range/query in 4 pipeline shapes + parse errors with "
                             "start/end/step/limit absent, malformed, zero, negative, reversed, sub-millisecond, huge, result sets of 0..320 rows with conversion errors, early end, "
-                            "failing statement, non-JSON lines, fingerprint 0; Tempo trace by id with undecodable / panicking / unknown payloads; test-only: 13 other endpoint families with "
+                            "failing statement, non-JSON lines, fingerprint 0, rows outside the statement's window, windows at and beyond the point / range-window caps; Tempo trace by id with undecodable / panicking / unknown payloads; "
+                            "forwarding endpoints (Loki / Prometheus labels, label values, series, Tempo tags, tag values v1/v2, search by tags, TraceQL search: class and statements issued compared with the model); test-only: the other endpoint families with "
                             "valid, mutated and random query bytes and random result sets. non-trivial = a SQL statement was issued (or the request did not end in a response); distinct by request+script content. ")
     ck.extra["input_distribution"] = hist
     ck.extra["observed_outcomes"] = outc
